@@ -8,8 +8,8 @@
    all DBs, all argument forms.  [closed tb]: every name in a task_dep / setup is a task (TaskControl
    checks that for `run`; the three commands do not -- on a table that is not closed they die from a
    KeyError, outcome CKeyError, DB untouched).  [md5] is an oracle (any function). *)
-From DoitV Require Import Base Status History StatusP HistoryP Commands CommandsP.
-From DoitV Require Dispatch Runner Parallel RunnerP ParallelP IgnParP.
+From DoitV Require Import Base Status History StatusP HistoryP Commands CommandsP Inspect InspectP.
+From DoitV Require Dispatch Runner Parallel RunnerP ParallelP IgnParP Introspect.
 From Coq Require Import Relations.
 Open Scope Z_scope.
 
@@ -375,6 +375,53 @@ Proof.
 Qed.
 Print Assumptions C13_ignore_then_wins_over_always_parallel.
 
+(* ---- "until forgotten": the commands that only look (Model/Inspect.v) ----
+   Between `ignore T` and a later run the user gives commands that are not `forget`: `doit list` (any of --all, --status,
+   --deps, --sort, names), `doit info` (with or without --no-status), `doit clean` (no --forget) -- each in a process of its own,
+   on any backend [b], each with ITS OWN task table (the dodo file may have changed), options, file system and FILE CHECKER
+   (--check_file_uptodate on its command line or in the configuration: possibly not the one that wrote the records, possibly
+   not the one of the run that follows).  [insp_steps b l d]: the DB on disk after the sequence [l] of such commands.
+   (Seeded change C13f: List._print_task asking get_status BEFORE looking at the mark, under another checker: get_status
+   drops the record of the other checker (dependency.py 680-689) and the mark with it; with the dbm backend that reaches the
+   file although `list` never closes the dependency manager, and the next run executes T.)
+
+   Whatever the sequence: the record of a task that carries the mark is afterwards what it was -- the mark, the saved state,
+   values and result -- so every statement above about "the DB `ignore` left" (C13_ignore_persists,
+   C13_ignore_never_started, C13_ignore_wins_over_always, C13_ignore_mark_survives_reset_dep, C13_ignore_until_forget)
+   applies unchanged after it. *)
+Theorem C13_ignore_survives_inspection : forall (md5 : N -> N) v (name_ltb : name -> name -> bool) b l d T,
+  status_is_ignore d T = true ->
+  insp_steps md5 v name_ltb b l d T = d T /\ status_is_ignore (insp_steps md5 v name_ltb b l d) T = true.
+Proof. exact insp_steps_keep_ignored. Qed.
+Print Assumptions C13_ignore_survives_inspection.
+
+(* one command, as the correspondence check evaluates it (harness/c13.py): outcome, lines, DB afterwards *)
+Theorem C13_ignore_survives_list_info_clean : forall (md5 : N -> N) v (name_ltb : name -> name -> bool) b tb o pos hide c fs d T,
+  status_is_ignore d T = true ->
+  co_db (list_step md5 v name_ltb b tb o c fs d) T = d T /\
+  co_db (info_step md5 v b tb pos hide c fs d) T = d T /\
+  co_db (clean_step d) T = d T.
+Proof.
+  intros md5 v name_ltb b tb o pos hide c fs d T Hi.
+  exact (conj (list_step_ign_kept md5 v name_ltb b tb o c fs d T Hi)
+          (conj (info_step_ign_kept md5 v b tb pos hide c fs d T Hi) eq_refl)).
+Qed.
+Print Assumptions C13_ignore_survives_list_info_clean.
+
+(* ... and the run after them (serial; any selection, --continue or not, --always-execute or not, any checker [c] of its
+   own, any set-iteration oracle, any fuel): a task the mark reached BEFORE the commands -- marked, or with a task_dep /
+   calc_dep path to a marked task -- is never executed and every final report it gets is skip_ignore; a task with one
+   of them as a setup-task is never executed *)
+Theorem C13_ignore_survives_inspection_then_run :
+  forall (md5 : N -> N) v (name_ltb : name -> name -> bool) b l d wake_rank calc_rank c fs rt cont always fuel sel k,
+  ignored_by d rt k ->
+  let tr := fst (next_run md5 v wake_rank calc_rank c fs (insp_steps md5 v name_ltb b l d) rt cont always fuel sel) in
+  ~ In (Runner.EExecute k) tr /\
+  (forall e, In e tr -> RunnerP.is_final_ev k e = true -> e = Runner.ESkipIgnore k) /\
+  (forall t, setup_ignored_by d rt t -> ~ In (Runner.EExecute t) tr).
+Proof. exact insp_steps_then_run. Qed.
+Print Assumptions C13_ignore_survives_inspection_then_run.
+
 (* ---- reset-dep ---- *)
 
 (* on every DB of the kind FS-fresh histories reach (db_ok: [sn] is every version each file ever had,
@@ -593,3 +640,26 @@ Proof.
   apply (ib_dep _ _ 0%N (mk [3%N] [] None [0%N] [] []) 3%N); [reflexivity|left; reflexivity|].
   apply (ib_mark _ _ 3%N (mk [] [] None [0%N] [] [])); reflexivity.
 Qed.
+
+(* run (md5 records, db0); `ignore b` (3); file 0 changed (fs0); `list --status --all --check_file_uptodate timestamp` on the
+   dbm backend; `info a`, `clean`; then `run --check_file_uptodate timestamp`.  The hypothesis of
+   C13_ignore_survives_inspection holds for b although its record was written by the OTHER checker; the listing shows I for b
+   (3, letter 1) and R (3) for the others; the record of a (0), not ignored, is dropped (the documented invalidation: so the
+   commands of [l] do change the DB) while b's is what it was; on json the file is as before; the run reports b and a -- which
+   depends on b -- ignored (4) and executes the rest (17; s (5), whose only dependency is a constant-true item, is up-to-date: 2);
+   after `forget b` both run. *)
+Example C13_inspection_nonvacuous :
+  let d := co_db (ignore_cmd tb0 [3%N] db0) in
+  let o := {| Introspect.o_subtasks := true; Introspect.o_status := true; Introspect.o_private := false;
+              Introspect.o_list_deps := false; Introspect.o_sort_name := true; Introspect.o_pos := [] |} in
+  let l := [IList tb0 o TS fs0; IInfo tb0 [0%N] false TS fs0; IClean] in
+  let d' := insp_steps (fun x => x) current N.ltb Introspect.BDbm l d in
+  let run dd := fst (next_run (fun x => x) current (fun _ _ => 0%N) (fun _ => 0%N) TS fs0 dd tb0 true false 400 [0; 1; 4; 5]%N) in
+  status_is_ignore d 3%N = true /\ ck_changed TS (getrec d 3%N) = true /\
+  co_log (list_step (fun x => x) current N.ltb Introspect.BDbm tb0 o TS fs0 d) = [(0%N, 3); (1%N, 3); (2%N, 3); (3%N, 1); (4%N, 3); (5%N, 3)] /\
+  d' 3%N = d 3%N /\ status_is_ignore d' 3%N = true /\ d 0%N <> None /\ d' 0%N = None /\
+  insp_steps (fun x => x) current N.ltb Introspect.BJson l d 0%N = d 0%N /\
+  map (outcome_z (run d')) [0;1;2;3;4;5]%N = [4; 17; 17; 4; 17; 2] /\
+  map (outcome_z (run (co_db (forget tb0 [3%N] None {| fo_sub := false; fo_disable_default := false; fo_all := false |} d'))))
+      [0;1;2;3;4;5]%N = [17; 17; 17; 17; 17; 2].
+Proof. vm_compute. repeat split; discriminate. Qed.
